@@ -14,6 +14,7 @@ import (
 const (
 	appConfigDir  = "ps3netsrv-go"
 	appConfigFile = "config.ini"
+	configFileEnv = "PS3NETSRV_CONFIG_FILE"
 )
 
 var (
@@ -58,6 +59,13 @@ func configLocations() []string {
 	}
 
 	ret = append(ret, appConfigFile) // search in current workdir
+
+	// config flag is processed by kong only if it is present in command line,
+	// so file specified by environment variable must be added here (last one has the highest priority)
+	if envConfigFile := os.Getenv(configFileEnv); envConfigFile != "" {
+		ret = append(ret, envConfigFile)
+	}
+
 	return ret
 }
 
